@@ -492,7 +492,7 @@ impl Property for C12 {
         true
     }
     fn case_timeout(&self) -> std::time::Duration {
-        std::time::Duration::from_secs(6)
+        std::time::Duration::from_secs(30)
     }
     fn describe(&self, bytes: &[u8]) -> J {
         let c = decode(bytes);
